@@ -221,6 +221,7 @@ int worker_main(std::string const& prop, int tier, u64 seed, u64 start, u64 stri
 
         Plan const p = plan_for(*ps, tier, seed, idx);
         spit(inflight, p.to_text());
+        alarm(300);   // watchdog: a run that does not come back is a result (SIGALRM ends the worker)
         std::fprintf(out, "B %llu\n", (unsigned long long) idx);
         std::fflush(out);
 
@@ -247,6 +248,7 @@ int worker_main(std::string const& prop, int tier, u64 seed, u64 start, u64 stri
                 one_line(f.key).c_str(), one_line(f.detail).c_str());
         }
         std::fflush(out);
+        alarm(0);
     }
 
     std::fprintf(out, "D\n");
@@ -373,6 +375,7 @@ ChildOut exec_forked(Plan const& p, std::string const& prop, std::string const& 
         dup2(devnull, 1);
         dup2(devnull, 2);
         u64 out[3] = {0, 0, 1};
+        alarm(120);
         for (int i = 0; i != repeat; ++i)
         {
             Report rep;
@@ -1042,6 +1045,7 @@ int replay_main(std::string const& file, std::string const& expect)
         std::fprintf(stderr, "cannot read plan %s: %s\n", file.c_str(), err.c_str());
         return 3;
     }
+    alarm(600);
     Report rep;
     execute(p, rep);
     std::printf("replay %s: scenario=%s hash=%llx findings=%zu\n", file.c_str(), p.scn.c_str(),
